@@ -91,6 +91,201 @@ class Recorder:
         return cb
 
 
+# ---------------------------------------------------------------------------
+# axis "what kind of object is mapped" (wave 2).  The statement speaks of "the callable" of an
+# entry and exempts only entries mapped to None, so nothing about the callable but the fact that
+# it can be called may influence delivery: not its truth value, its length, its equality with
+# None or with other callables, its hashability, its type, nor what it returns.
+
+LOG = []          # (name, value) in the order of the calls, whatever kind of callable was called
+
+
+def _rec(name, value):
+    LOG.append((name, value))
+
+
+class _Obj:
+    def __init__(self, name):
+        self.name = name
+
+    def __call__(self, value):
+        _rec(self.name, value)
+
+    def method(self, value):
+        _rec(self.name, value)
+
+
+class _BoolFalse(_Obj):
+    def __bool__(self):
+        return False
+
+
+class _LenZero(_Obj):
+    def __len__(self):
+        return 0
+
+
+class _BoolRaises(_Obj):
+    def __bool__(self):
+        raise RuntimeError("the truth value of a handler callable was asked for")
+
+
+class _EqAnything(_Obj):
+    """equal to everything (None, every other callable), with one common hash"""
+
+    def __eq__(self, other):
+        return True
+
+    def __ne__(self, other):
+        return False
+
+    def __hash__(self):
+        return 7
+
+
+class _Unhashable(_Obj):
+    __hash__ = None
+
+
+class _ListRecorder(list):
+    """keeps what it received in itself: empty (falsy, equal to []) until first called"""
+    name = None
+
+    def __call__(self, value):
+        self.append(value)
+        _rec(self.name, value)
+
+
+def _returning(name, ret):
+    def cb(value):
+        _rec(name, value)
+        return ret
+    return cb
+
+
+def _function(name):
+    def cb(value):
+        _rec(name, value)
+    return cb
+
+
+def _class(name):
+    def __init__(self, value):
+        _rec(name, value)
+    return type("HandlerClass", (), {"__init__": __init__})
+
+
+def _listrec(name):
+    r = _ListRecorder()
+    r.name = name
+    return r
+
+
+def _partial(name):
+    import functools
+    return functools.partial(_rec, name)
+
+
+CALLABLE_KINDS = (
+    ("function", _function),
+    ("bound-method", lambda name: _Obj(name).method),
+    ("partial", _partial),
+    ("class", _class),
+    ("object", _Obj),
+    ("object-bool-false", _BoolFalse),
+    ("object-len-zero", _LenZero),
+    ("object-bool-raises", _BoolRaises),
+    ("object-equal-to-anything", _EqAnything),
+    ("object-unhashable", _Unhashable),
+    ("empty-list-subclass", _listrec),
+    ("returns-true", lambda name: _returning(name, True)),
+    ("returns-false", lambda name: _returning(name, False)),
+    ("returns-string", lambda name: _returning(name, "stop")),
+)
+KIND_NAMES = tuple(k for k, _ in CALLABLE_KINDS)
+# one callable object mapped to every name: the values must still arrive once per entry, in order
+SHARED_KINDS = ("function", "builtin-list-append", "empty-list-subclass", "object-bool-false",
+                "object-equal-to-anything")
+_CACHE = {}
+_LISTRECS = []
+
+
+def callable_of(kind, name):
+    """the callable of this kind for this name (made once per process: the objects carry no state
+    but the empty-list-subclass, which reset_log empties again)"""
+    c = _CACHE.get((kind, name))
+    if c is None:
+        c = _CACHE[(kind, name)] = dict(CALLABLE_KINDS)[kind](name)
+        if kind == "empty-list-subclass":
+            _LISTRECS.append(c)
+    return c
+
+
+def reset_log():
+    del LOG[:]
+    for c in _LISTRECS:
+        if c:
+            del c[:]
+
+
+def shared_callable(kind):
+    """one callable object to be mapped to every name -> (callable, records_names)"""
+    if kind == "builtin-list-append":
+        return LOG.append, False              # a built-in bound method: records the bare values
+    return callable_of(kind, "*"), True
+
+
+_MK = []
+
+
+def map_kinds():
+    if not _MK:
+        _MK.extend(_map_kinds())
+    return _MK
+
+
+def _map_kinds():
+    import collections
+    import collections.abc
+    import types
+
+    class PairsMapping(collections.abc.Mapping):
+        def __init__(self, d):
+            self._pairs = list(d.items())
+
+        def __getitem__(self, k):
+            for a, b in self._pairs:
+                if a == k:
+                    return b
+            raise KeyError(k)
+
+        def __iter__(self):
+            return iter([a for a, _ in self._pairs])
+
+        def __len__(self):
+            return len(self._pairs)
+
+    return (
+        ("dict-reversed-insertion", lambda d: dict(reversed(list(d.items())))),
+        ("ordered-dict-reversed", lambda d: collections.OrderedDict(reversed(list(d.items())))),
+        ("mappingproxy", lambda d: types.MappingProxyType(dict(d))),
+        ("abc-mapping", PairsMapping),
+        ("userdict", collections.UserDict),
+    )
+
+
+def none_subsets(uniq, tier):
+    """which sets of names are mapped to None (the empty set is the complete map and the sets of
+    size 1 are variant 4 of the older part)"""
+    n = len(uniq)
+    full = n <= (3 if tier == "quick" else 6)
+    sizes = (n - 1, n) + ((2,) if tier != "quick" or n <= 4 else ())
+    for k in range(2 if n > 1 else 1, n + 1):
+        if full or k in sizes:
+            for c in itertools.combinations(uniq, k):
+                yield c
+
+
 def call(handler, mapping):
     import ZConfig
     try:
@@ -100,6 +295,120 @@ def call(handler, mapping):
         return ("config-error", str(e)[:120])
     except Exception as e:
         return ("internal", core.exc_desc(e))
+
+
+TIER = "quick"        # set by run() before the workers are forked / by replay from the case
+
+
+def check_callables(handler, exp, uniq, tier, bad, acc):
+    """the wave-2 axes on one accepted node whose older variants all passed.
+    exp = [(name, value object delivered to the plain function of variant 1)]."""
+    names = [n for n, _ in exp]
+    n_maps = 0
+
+    def delivered(r, want, named=True):
+        """did exactly the entries `want` (pairs of exp, in order) arrive?"""
+        if r != ("ok",) or len(LOG) != len(want):
+            return False
+        for got, (nm, val) in zip(LOG, want):
+            if named:
+                if got[0] != nm or got[1] is not val:
+                    return False
+            elif got is not val:
+                return False
+        return True
+
+    def seen(named=True):
+        return [c[0] for c in LOG] if named else len(LOG)
+
+    K = len(KIND_NAMES)
+    # a. every name mapped to its own callable of one kind
+    for k in KIND_NAMES:
+        reset_log()
+        r = call(handler, {nm: callable_of(k, nm) for nm in uniq})
+        n_maps += 1
+        acc.extra["callable-kind/" + k] += 1
+        if not delivered(r, exp):
+            return bad("callable-kind-changes-delivery", [r, seen()], names, callable=k, layout="uniform")
+    # b. the kinds mixed: name i gets kind (i + r) mod K, for every r - each name meets each kind
+    #    once, next to names that hold other kinds
+    if len(uniq) >= 2:
+        for rot in range(K):
+            reset_log()
+            m = {nm: callable_of(KIND_NAMES[(i + rot) % K], nm) for i, nm in enumerate(uniq)}
+            r = call(handler, m)
+            n_maps += 1
+            if not delivered(r, exp):
+                return bad("callable-kind-changes-delivery", [r, seen()], names,
+                           callable="+".join(KIND_NAMES[(i + rot) % K] for i in range(len(uniq))),
+                           layout="mixed")
+        acc.extra["mixed-kind-nodes"] += 1
+    # c. one callable object mapped to every name
+    for k in SHARED_KINDS:
+        reset_log()
+        c, named = shared_callable(k)
+        r = call(handler, {nm: c for nm in uniq})
+        n_maps += 1
+        want = [("*", v) for _, v in exp]
+        if not delivered(r, want, named):
+            return bad("shared-callable-changes-delivery", [r, seen(named)], len(exp), callable=k, layout="shared")
+    # d. one name holds a callable of the kind, every other name is mapped to None
+    if tier != "quick" and len(uniq) >= 2:
+        for k in KIND_NAMES:
+            for p in uniq:
+                reset_log()
+                r = call(handler, {nm: (callable_of(k, nm) if nm == p else None) for nm in uniq})
+                n_maps += 1
+                want = [e for e in exp if e[0] == p]
+                if not delivered(r, want):
+                    return bad("callable-kind-changes-delivery", [r, seen()], [e[0] for e in want],
+                               callable=k, layout="single-among-none")
+    # e. sets of names mapped to None
+    for sub in none_subsets(uniq, tier):
+        reset_log()
+        r = call(handler, {nm: (None if nm in sub else callable_of("function", nm)) for nm in uniq})
+        n_maps += 1
+        want = [e for e in exp if e[0] not in sub]
+        if not delivered(r, want):
+            return bad("none-set-mishandled", [r, seen()], [e[0] for e in want], none_count=min(len(sub), 3),
+                       all_none=len(sub) == len(uniq))
+        acc.extra["none-sets"] += 1
+    # f. all or nothing when the names that are mapped hold None / falsy callables / the duplicate holds None
+    for miss in (uniq if tier != "quick" else sorted(set((uniq[0], uniq[-1])))):
+        for k in (None, "object-bool-false", "empty-list-subclass"):
+            reset_log()
+            r = call(handler, {nm: (callable_of(k, nm) if k else None) for nm in uniq if nm != miss})
+            n_maps += 1
+            if r[0] != "config-error" or LOG:
+                return bad("incomplete-map-not-all-or-nothing", [r, seen()], ["config-error", []],
+                           others=k or "None")
+            reset_log()
+            m = {nm: (callable_of(k, nm) if k else None) for nm in uniq}
+            m[miss.upper()] = callable_of(k, miss) if k else None
+            r = call(handler, m)
+            n_maps += 1
+            if r[0] != "config-error" or LOG:
+                return bad("duplicate-name-not-all-or-nothing", [r, seen()], ["config-error", []],
+                           others=k or "None")
+    # g. the kind of the mapping object and the order of its items
+    for mk, make in map_kinds():
+        reset_log()
+        r = call(handler, make({nm: callable_of("function", nm) for nm in uniq}))
+        n_maps += 1
+        if not delivered(r, exp):
+            return bad("mapping-kind-changes-delivery", [r, seen()], names, mapping=mk)
+        if uniq:
+            for miss in ((uniq[0], uniq[-1]) if tier != "quick" else (uniq[0],)):
+                reset_log()
+                r = call(handler, make({nm: callable_of("function", nm) for nm in uniq if nm != miss}))
+                n_maps += 1
+                if r[0] != "config-error" or LOG:
+                    return bad("incomplete-map-not-all-or-nothing", [r, seen()], ["config-error", []], mapping=mk)
+    reset_log()
+    acc.extra["wave2_maps_checked"] += n_maps
+    if len(exp) >= 2:
+        acc.extra["falsy-callable-nodes-2+entries"] += 1
+    return True
 
 
 def check_case(S, sch, hist, text, acc, mid):
@@ -150,6 +459,7 @@ def check_case(S, sch, hist, text, acc, mid):
     r = call(handler, {nm: rec.make(nm) for nm in uniq})
     if r != ("ok",):
         return bad("complete-map-refused", r, "ok")
+    first_calls = list(rec.calls)
     got = [c[0] for c in rec.calls]
     if got != names:
         return bad("wrong-call-sequence", got, names)
@@ -204,8 +514,10 @@ def check_case(S, sch, hist, text, acc, mid):
         r = call(handler, {})
         if r != ("ok",):
             return bad("empty-map-refused", r, "ok")
-    acc.extra["handler_calls_checked"] += 3 * len(uniq) + 2
-    return True
+    acc.extra["handler_calls_checked"] += 3 * len(uniq) + 5
+    if not uniq:
+        return True
+    return check_callables(handler, [(c[0], c[1]) for c in first_calls], uniq, mid.get("tier", TIER), bad, acc)
 
 
 def shard(member, acc):
@@ -213,7 +525,7 @@ def shard(member, acc):
     xml = M.render(S)
     sch = H.load_schema(xml)
     mid = {"label": list(member[0]), "placement": member[2], "handlers_on": list(member[3]),
-           "depth": member[4], "schema": xml}
+           "depth": member[4], "schema": xml, "tier": TIER}
     bfs.explore(S, sch, root, member[4], acc, lambda h, t: check_case(S, sch, h, t, acc, mid),
                 with_handlers=True)
     acc.extra["schemas"] += 1
@@ -221,6 +533,8 @@ def shard(member, acc):
 
 
 def run(tier):
+    global TIER
+    TIER = tier
     fam = family(tier)
     run = core.Run(
         "C16", tier, "model_checking",
@@ -229,15 +543,44 @@ def run(tier):
              "slots, leaf key} (all subsets for <= 1 item, selected subsets for 2 items); every accepted node: "
              "len(handler), call sequence and delivered values for the complete map, the upper-cased map, each "
              "single name missing / mapped to None / duplicated in another letter case, against the entry list of "
-             "the reference model.  Non-trivial = accepted sequence with >= 2 handler entries.",
-        bounds={"schemas": len(fam), "depth": sorted(set(m[4] for m in fam))},
+             "the reference model.  On every accepted node with >= 1 entry additionally the axis WHAT IS MAPPED: "
+             "(a) every name mapped to its own callable of one kind, for every kind of the alphabet "
+             "callable_kinds (plain function / bound method / partial / class / callable object; objects that are "
+             "falsy by __bool__ or by __len__, whose __bool__ raises, that compare equal to None and to each other, "
+             "that are unhashable, a list subclass that is empty until called; functions returning True / False / a "
+             "string); (b) the kinds mixed, name i holding kind (i + r) mod K for every rotation r; (c) one "
+             "shared callable object (shared_kinds) mapped to every name; (d, thorough) one name holding each kind "
+             "while all others hold None; (e) every set of names mapped to None (bounds.none_sets); (f) each name "
+             "missing / case-duplicated while the remaining names hold None, falsy objects or empty list "
+             "subclasses; (g) the mapping object being each of mapping_kinds (reversed insertion order, "
+             "OrderedDict (a dict subclass), mappingproxy, a non-dict collections.abc.Mapping, UserDict), complete and "
+             "with the first (thorough: also the last) name missing.  Expected in every case: exactly the reference entries whose "
+             "name holds a non-None object are called, once, in order, with the identical value objects; on "
+             "missing / duplicate names a configuration error and no call.  "
+             "Non-trivial = accepted sequence with >= 2 handler entries.",
+        bounds={"schemas": len(fam), "depth": sorted(set(m[4] for m in fam)),
+                "callable_kinds": list(KIND_NAMES), "shared_kinds": list(SHARED_KINDS),
+                "mapping_kinds": [k for k, _ in map_kinds()],
+                "none_sets": "all subsets of the distinct names for <= %d names, else sizes 1, %sn-1, n"
+                             % ((3, "2 (<= 4 names), ") if tier == "quick" else (6, "2, ")),
+                "all_or_nothing_with_none_or_falsy_others": "first and last name" if tier == "quick" else "every name",
+                "single_among_none": tier != "quick"},
         assumptions=["reference entry order from vz/ref/match.py (finish order of containers)",
-                     "map keys that are not valid basic-keys are not generated (statement silent)"])
+                     "map keys that are not valid basic-keys are not generated (statement silent)",
+                     "mapped objects that are neither None nor callable, and callables that raise, are not "
+                     "generated (statement silent)"])
     core.pmap(shard, fam, run.acc, shard_budget=1800.0)
     a = run.acc
     run.require(sum(v for k, v in a.classes.items() if k.startswith("accepted-") and k != "accepted-0-entries"
                     and k != "accepted-1-entries") > 500, "too few accepted nodes with >= 2 entries")
     run.require(a.extra.get("handler_calls_checked", 0) > 1000, "few handler calls")
+    run.require(min(a.extra.get("callable-kind/" + k, 0) for k in KIND_NAMES) > 5000,
+                "some kind of callable was mapped on too few accepted nodes")
+    run.require(a.extra.get("falsy-callable-nodes-2+entries", 0) > 500,
+                "the callable-kind axis ran on too few nodes with >= 2 entries")
+    run.require(a.extra.get("mixed-kind-nodes", 0) > 500, "too few nodes with >= 2 distinct names for mixed kinds")
+    run.require(a.extra.get("none-sets", 0) > 5000, "too few sets of None-mapped names")
+    run.require(a.extra.get("wave2_maps_checked", 0) > 100000, "few maps of the what-is-mapped axis")
     return run
 
 
@@ -252,10 +595,11 @@ def replay(body):
     for _ in range(2):
         acc = core.Acc()
         sch = H.load_schema(m["schema"])
-        check_case(S, sch, hist, case["text"], acc, m)
+        check_case(S, sch, hist, case["text"], acc, dict(m, tier=m.get("tier", "quick")))
         print("text:\n" + case["text"])
         print("reference entries:", [n for n, _ in R.decide(S, hist).entries])
         for v in acc.violations.values():
-            print("REPLAY violation:", v["kind"], "observed=", v["observed"], "expected=", v["expected"])
+            print("REPLAY violation:", v["kind"], "tags=", v["tags"], "observed=", v["observed"],
+                  "expected=", v["expected"])
             rc = 1
     return rc
